@@ -201,11 +201,16 @@ class CallMixin:
             else:
                 raise Undecided("recursive spec function %s: unsupported argument %r" % (fn.__qualname__, a))
         ret = rec["returns"]
-        rsort = {"int": z3.IntSort(), "bool": z3.BoolSort()}.get(ret, BSort)
+        rsort = z3.IntSort() if ret.startswith("int") else {"bool": z3.BoolSort()}.get(ret, BSort)
         f = UF("rec_" + "|".join(tag), *([t.sort() for t in terms] + [rsort]))
         t = f(*terms)
         if ret == "int":
             return SInt(t)
+        if ret.startswith("int:"):
+            # non-negative integer below 2**bits (usable in bit-vector mode as an exact value)
+            bits = int(ret[4:])
+            self.p.assume(z3.And(t >= 0, t < (1 << bits)))
+            return self.int_from_term(t, bits)
         if ret == "bool":
             return SBool(t)
         if ret.startswith("bytes:"):
@@ -318,8 +323,10 @@ class CallMixin:
     def wrap_int_term(self, t, bits):
         if self.bv is None:
             return SInt(t)
-        if bits is None or bits > self.bv:
+        if bits is None:
             raise Undecided("bv mode needs a bounded integer")
+        # bits > W: an *inexact* value (low W bits of the true value, true value < 2**bits); only operations
+        # that are homomorphic on low bits may consume it (bv_exact refuses everything else)
         return SBV(z3.Int2BV(t, self.bv), bits)
 
     # ------------------------------------------------------------------ contract language
@@ -496,7 +503,14 @@ class CallMixin:
         raise Undecided("builtin %s.%s" % (mod, qn))
 
     def b_len(self, a, k):
-        return self.length(a[0])
+        n = self.length(a[0])
+        if self.bv is not None and isinstance(n, SInt):
+            # bit-vector mode: a symbolic length becomes an exact value when the path bounds it below 2**bits
+            for bits in (8, 16, 24, self.bv - 4, self.bv - 1, self.bv):
+                if 0 < bits <= self.bv and self.p.implied(z3.And(n.t >= 0, n.t < (1 << bits))):
+                    return self.int_from_term(n.t, bits)
+            raise Undecided("bv: length not bounded by the word size")
+        return n
 
     def b_print(self, a, k):
         return None
